@@ -438,7 +438,7 @@ def c_ev(e):
 
 def c_step(sess, st, ob, clients, blobs):
     action = None if st["via"] is None else clients[st["via"]][2]
-    q = "(mkReq %s %s %s %s %s)" % (copt(cbytes(action) if action is not None else None, "bytes"),
+    q = "(mkReq %s %s %s %s %s %s)" % (copt(cbytes(action) if action is not None else None, "bytes"),
                                     cstr(st["path"]), c_hdict(st["hdrs"]), blobs.c(ob["msg"]),
                                     c_creds(*ob.get("creds", (sess["user"], sess["pw"]))), cbool(bool(ob.get("reused"))))
     p = "(mkResp %s %s %s %s %s %s %s)" % (
